@@ -208,10 +208,13 @@ class CallMixin:
                 env0 = self.bind(fs.node.args, args, kwargs, f.__defaults__, None)
             except PyRaise:
                 env0 = None
+            best = None
             for cc in cands:
                 if env0 is not None and all(self.kind_matches(S, env0[k]) for k, S in cc.params.items() if k in env0):
-                    c = cc
-                    break
+                    sc = sum(self.specificity(S, env0[k]) for k, S in cc.params.items() if k in env0)
+                    if best is None or sc < best[0]:
+                        best = (sc, cc)
+            c = best[1] if best else None
             if c is None:
                 raise Unsupported(f'no contract variant of {fs.qual} accepts the argument shapes at this call')
         else:
@@ -239,6 +242,16 @@ class CallMixin:
                 self.assumptions.add(f'assumed contract of {c.file}:{c.qual}' + (f' — {c.note}' if c.note else ''))
             return self.ev_text_value(c.pure_expr, fr0)
         return self.apply_contract(c, fs, env, mod, node)
+
+    def specificity(self, S, v):
+        """distance between the class of an actual object and the class a contract variant is written for (0 = exact)"""
+        if isinstance(S, api.Struct) and isinstance(v, VStruct) and v.pycls is not None and S.pycls:
+            cls = self.resolver(None)(S.pycls)
+            try:
+                return v.pycls.__mro__.index(cls)
+            except ValueError:
+                return 99
+        return 0
 
     def kind_matches(self, S, v):
         """does the shape of an actual argument fit the declared parameter sort (variant dispatch)"""
